@@ -35,4 +35,343 @@ theorem sumLoop_chain (xs : List String) : ∀ (acc : AExpr) (fuel : Nat), 3 * x
     exact ih _ _ (by simp at h; omega)
 
 
+/-! ### fuel monotonicity and the general round trip `parse (print e) = e` -/
+
+theorem fuel_mono : ∀ f : Nat,
+    (∀ ts r, parseOperand f ts = some r → parseOperand (f + 1) ts = some r) ∧
+    (∀ acc ts r, productLoop f acc ts = some r → productLoop (f + 1) acc ts = some r) ∧
+    (∀ ts r, parseProduct f ts = some r → parseProduct (f + 1) ts = some r) ∧
+    (∀ acc ts r, sumLoop f acc ts = some r → sumLoop (f + 1) acc ts = some r) ∧
+    (∀ ts r, parseSum f ts = some r → parseSum (f + 1) ts = some r) := by
+  intro f
+  induction f with
+  | zero =>
+    refine ⟨?_, ?_, ?_, ?_, ?_⟩ <;> intros <;> simp_all [parseOperand, productLoop, parseProduct, sumLoop, parseSum]
+  | succ f ih =>
+    obtain ⟨hO, hPL, hP, hSL, hS⟩ := ih
+    refine ⟨?_, ?_, ?_, ?_, ?_⟩
+    · intro ts r h
+      cases ts with
+      | nil => simp [parseOperand] at h
+      | cons t rest =>
+        cases t with
+        | atom s => simpa [parseOperand] using h
+        | op c => simp [parseOperand] at h
+        | rp => simp [parseOperand] at h
+        | lp =>
+          simp only [parseOperand] at h ⊢
+          cases hs : parseSum f rest with
+          | none => simp [hs] at h
+          | some x =>
+            rw [hS rest x hs]
+            rw [hs] at h
+            exact h
+    · intro acc ts r h
+      cases ts with
+      | nil => simpa [productLoop] using h
+      | cons t rest =>
+        cases t with
+        | atom s => simpa [productLoop] using h
+        | lp => simpa [productLoop] using h
+        | rp => simpa [productLoop] using h
+        | op c =>
+          simp only [productLoop] at h ⊢
+          split at h
+          · rename_i hc
+            rw [if_pos hc]
+            cases ho : parseOperand f rest with
+            | none => simp [ho] at h
+            | some x =>
+              rw [hO rest x ho]
+              rw [ho] at h
+              simp only at h ⊢
+              exact hPL _ _ _ h
+          · rename_i hc
+            rw [if_neg hc]
+            exact h
+    · intro ts r h
+      simp only [parseProduct] at h ⊢
+      cases ho : parseOperand f ts with
+      | none => simp [ho] at h
+      | some x =>
+        rw [hO ts x ho]
+        rw [ho] at h
+        simp only at h ⊢
+        exact hPL _ _ _ h
+    · intro acc ts r h
+      cases ts with
+      | nil => simpa [sumLoop] using h
+      | cons t rest =>
+        cases t with
+        | atom s => simpa [sumLoop] using h
+        | lp => simpa [sumLoop] using h
+        | rp => simpa [sumLoop] using h
+        | op c =>
+          simp only [sumLoop] at h ⊢
+          split at h
+          · rename_i hc
+            rw [if_pos hc]
+            cases ho : parseProduct f rest with
+            | none => simp [ho] at h
+            | some x =>
+              rw [hP rest x ho]
+              rw [ho] at h
+              simp only at h ⊢
+              exact hSL _ _ _ h
+          · rename_i hc
+            rw [if_neg hc]
+            exact h
+    · intro ts r h
+      simp only [parseSum] at h ⊢
+      cases ho : parseProduct f ts with
+      | none => simp [ho] at h
+      | some x =>
+        rw [hP ts x ho]
+        rw [ho] at h
+        simp only at h ⊢
+        exact hSL _ _ _ h
+
+theorem le_lift {P : Nat → Prop} (h : ∀ f, P f → P (f + 1)) {f g : Nat} (hle : f ≤ g) (hf : P f) : P g := by
+  induction hle with
+  | refl => exact hf
+  | step _ ih => exact h _ ih
+
+theorem operand_le {f g : Nat} (h : f ≤ g) {ts r} (hf : parseOperand f ts = some r) : parseOperand g ts = some r :=
+  le_lift (P := fun f => parseOperand f ts = some r) (fun f => (fuel_mono f).1 ts r) h hf
+theorem ploop_le {f g : Nat} (h : f ≤ g) {acc ts r} (hf : productLoop f acc ts = some r) : productLoop g acc ts = some r :=
+  le_lift (P := fun f => productLoop f acc ts = some r) (fun f => (fuel_mono f).2.1 acc ts r) h hf
+theorem product_le {f g : Nat} (h : f ≤ g) {ts r} (hf : parseProduct f ts = some r) : parseProduct g ts = some r :=
+  le_lift (P := fun f => parseProduct f ts = some r) (fun f => (fuel_mono f).2.2.1 ts r) h hf
+theorem sloop_le {f g : Nat} (h : f ≤ g) {acc ts r} (hf : sumLoop f acc ts = some r) : sumLoop g acc ts = some r :=
+  le_lift (P := fun f => sumLoop f acc ts = some r) (fun f => (fuel_mono f).2.2.2.1 acc ts r) h hf
+theorem sum_le {f g : Nat} (h : f ≤ g) {ts r} (hf : parseSum f ts = some r) : parseSum g ts = some r :=
+  le_lift (P := fun f => parseSum f ts = some r) (fun f => (fuel_mono f).2.2.2.2 ts r) h hf
+
+/-- the continuation does not start with a multiplicative operator -/
+def NoMul : List Tok → Prop
+  | Tok.op c :: _ => c ≠ '*' ∧ c ≠ '/'
+  | _ => True
+
+theorem ploop_stop (e : AExpr) (rest : List Tok) (h : NoMul rest) : productLoop 1 e rest = some (e, rest) := by
+  cases rest with
+  | nil => simp [productLoop]
+  | cons t r =>
+    cases t with
+    | op c => simp only [NoMul] at h; simp [productLoop, h.1, h.2]
+    | atom s => simp [productLoop]
+    | lp => simp [productLoop]
+    | rp => simp [productLoop]
+
+/-- parse an operand and continue the product loop -/
+theorem product_of_operand {f g : Nat} {ts rest : List Tok} {e : AExpr} {r}
+    (ho : parseOperand f ts = some (e, rest)) (hl : productLoop g e rest = some r) :
+    parseProduct (max f g + 1) ts = some r := by
+  simp only [parseProduct, operand_le (Nat.le_max_left f g) ho]
+  exact ploop_le (Nat.le_max_right f g) hl
+
+theorem sum_of_product {f g : Nat} {ts rest : List Tok} {e : AExpr} {r}
+    (hp : parseProduct f ts = some (e, rest)) (hl : sumLoop g e rest = some r) :
+    parseSum (max f g + 1) ts = some r := by
+  simp only [parseSum, product_le (Nat.le_max_left f g) hp]
+  exact sloop_le (Nat.le_max_right f g) hl
+
+theorem ploop_step {f g : Nat} (c : Char) (hc : c = '*' ∨ c = '/') {acc x : AExpr} {ts rest : List Tok} {r}
+    (ho : parseOperand f ts = some (x, rest))
+    (hl : productLoop g (if c = '*' then .mul acc x else .div acc x) rest = some r) :
+    productLoop (max f g + 1) acc (Tok.op c :: ts) = some r := by
+  simp only [productLoop, if_pos hc, operand_le (Nat.le_max_left f g) ho]
+  exact ploop_le (Nat.le_max_right f g) hl
+
+theorem sloop_step {f g : Nat} (c : Char) (hc : c = '+' ∨ c = '-') {acc x : AExpr} {ts rest : List Tok} {r}
+    (hp : parseProduct f ts = some (x, rest))
+    (hl : sumLoop g (if c = '+' then .add acc x else .sub acc x) rest = some r) :
+    sumLoop (max f g + 1) acc (Tok.op c :: ts) = some r := by
+  simp only [sumLoop, if_pos hc, product_le (Nat.le_max_left f g) hp]
+  exact sloop_le (Nat.le_max_right f g) hl
+
+
+/-- number of nodes -/
+def size : AExpr → Nat
+  | .opnd _ => 1
+  | .add l r | .sub l r | .mul l r | .div l r => 1 + size l + size r
+
+theorem size_pos (e : AExpr) : 1 ≤ size e := by cases e <;> simp [size] <;> omega
+
+theorem ploop_fuel_pos {g acc ts r} (h : productLoop g acc ts = some r) : 1 ≤ g := by
+  cases g with
+  | zero => simp [productLoop] at h
+  | succ n => omega
+theorem sloop_fuel_pos {g acc ts r} (h : sumLoop g acc ts = some r) : 1 ≤ g := by
+  cases g with
+  | zero => simp [sumLoop] at h
+  | succ n => omega
+
+section Main
+variable (extra : Bool)
+
+def W (need : Nat) (e : AExpr) : List Tok := wrap extra need e.level (printTop extra e)
+
+def PA (e : AExpr) : Prop := ∀ rest, parseOperand (7 * size e + 3) (W extra 2 e ++ rest) = some (e, rest)
+def PB (e : AExpr) : Prop := 1 ≤ e.level → ∀ rest r g, productLoop g e rest = some r →
+  parseProduct (g + 7 * size e) (printTop extra e ++ rest) = some r
+def PD (e : AExpr) : Prop := ∀ rest r g, NoMul rest → sumLoop g e rest = some r →
+  parseSum (g + 7 * size e + 1) (printTop extra e ++ rest) = some r
+
+theorem W_paren (need : Nat) (e : AExpr) (h : (decide (e.level < need) || (extra && decide (e.level < 2))) = true) :
+    W extra need e = Tok.lp :: printTop extra e ++ [Tok.rp] := by
+  simp only [W, wrap, h, if_true]
+theorem W_plain (need : Nat) (e : AExpr) (h : (decide (e.level < need) || (extra && decide (e.level < 2))) = false) :
+    W extra need e = printTop extra e := by
+  simp only [W, wrap, h]; rfl
+
+theorem B1 (x : AExpr) (ha : PA extra x) (hb : PB extra x) (rest : List Tok) (r : AExpr × List Tok) (g : Nat)
+    (hg : productLoop g x rest = some r) : parseProduct (g + 7 * size x + 3) (W extra 1 x ++ rest) = some r := by
+  have hg1 := ploop_fuel_pos hg
+  cases hp : (decide (x.level < 1) || (extra && decide (x.level < 2))) with
+  | true =>
+    have h2 : (decide (x.level < 2) || (extra && decide (x.level < 2))) = true := by
+      cases extra <;> simp_all <;> omega
+    have hf := ha rest
+    rw [W_paren extra 2 x h2] at hf
+    rw [W_paren extra 1 x hp]
+    exact product_le (by omega) (product_of_operand hf hg)
+  | false =>
+    rw [W_plain extra 1 x hp]
+    have hlev : 1 ≤ x.level := by
+      cases extra <;> simp_all <;> omega
+    exact product_le (by omega) (hb hlev rest r g hg)
+
+theorem D0 (x : AExpr) (ha : PA extra x) (hd : PD extra x) (rest : List Tok) (r : AExpr × List Tok) (g : Nat)
+    (hn : NoMul rest) (hg : sumLoop g x rest = some r) : parseSum (g + 7 * size x + 4) (W extra 0 x ++ rest) = some r := by
+  have hg1 := sloop_fuel_pos hg
+  cases hp : (decide (x.level < 0) || (extra && decide (x.level < 2))) with
+  | true =>
+    have h2 : (decide (x.level < 2) || (extra && decide (x.level < 2))) = true := by
+      cases extra <;> simp_all
+    have hf := ha rest
+    rw [W_paren extra 2 x h2] at hf
+    rw [W_paren extra 0 x hp]
+    have hprod := product_of_operand hf (ploop_stop x rest hn)
+    exact sum_le (by omega) (sum_of_product hprod hg)
+  | false =>
+    rw [W_plain extra 0 x hp]
+    exact sum_le (by omega) (hd rest r g hn hg)
+
+theorem noMul_rp (rest : List Tok) : NoMul (Tok.rp :: rest) := trivial
+
+theorem sloop_stop_rp (e : AExpr) (rest : List Tok) : sumLoop 1 e (Tok.rp :: rest) = some (e, Tok.rp :: rest) := by
+  simp [sumLoop]
+
+theorem PA_of_PD (e : AExpr) (hlev : e.level < 2) (hd : PD extra e) : PA extra e := by
+  intro rest
+  have h2 : (decide (e.level < 2) || (extra && decide (e.level < 2))) = true := by simp [hlev]
+  rw [W_paren extra 2 e h2]
+  have hf := hd (Tok.rp :: rest) (e, Tok.rp :: rest) 1 (noMul_rp rest) (sloop_stop_rp e rest)
+  have : Tok.lp :: printTop extra e ++ [Tok.rp] ++ rest = Tok.lp :: (printTop extra e ++ Tok.rp :: rest) := by simp
+  rw [this]
+  have e2 : 7 * size e + 3 = (1 + 7 * size e + 1) + 1 := by omega
+  rw [e2]
+  simp only [parseOperand, hf]
+
+theorem PD_of_PB (e : AExpr) (hlev : 1 ≤ e.level) (hb : PB extra e) : PD extra e := by
+  intro rest r g hn hg
+  have hg1 := sloop_fuel_pos hg
+  have hf := hb hlev rest (e, rest) 1 (ploop_stop e rest hn)
+  exact sum_le (by omega) (sum_of_product hf hg)
+
+theorem roundtrip_main : ∀ e : AExpr, PA extra e ∧ PB extra e ∧ PD extra e := by
+  intro e
+  induction e with
+  | opnd s =>
+    have hprint : printTop extra (.opnd s) = [Tok.atom s] := rfl
+    have hb : PB extra (.opnd s) := by
+      intro _ rest r g hg
+      have hg1 := ploop_fuel_pos hg
+      rw [hprint]
+      have ho : parseOperand 1 ([Tok.atom s] ++ rest) = some (.opnd s, rest) := by simp [parseOperand]
+      exact product_le (by simp [size]; omega) (product_of_operand ho hg)
+    refine ⟨?_, hb, PD_of_PB extra _ (by simp [AExpr.level]) hb⟩
+    intro rest
+    have : W extra 2 (.opnd s) = [Tok.atom s] := by
+      simp [W, wrap, AExpr.level, hprint]
+    rw [this]; simp [parseOperand, size]
+  | add l r ihl ihr =>
+    obtain ⟨al, bl, dl⟩ := ihl
+    obtain ⟨ar, br, dr⟩ := ihr
+    have hprint : printTop extra (.add l r) = W extra 0 l ++ Tok.op '+' :: W extra 1 r := rfl
+    have hd : PD extra (.add l r) := by
+      intro rest res g hn hg
+      have hg1 := sloop_fuel_pos hg
+      rw [hprint]
+      have h1 := B1 extra r ar br rest (r, rest) 1 (ploop_stop r rest hn)
+      have hstep := sloop_step (acc := l) '+' (Or.inl rfl) h1 (by simpa using hg)
+      have hn' : NoMul (Tok.op '+' :: (W extra 1 r ++ rest)) := by simp [NoMul]
+      have h2 := D0 extra l al dl _ res _ hn' hstep
+      have := sum_le (g := g + 7 * size (.add l r) + 1) (by simp [size]; omega) h2
+      simpa [List.append_assoc] using this
+    exact ⟨PA_of_PD extra _ (by simp [AExpr.level]) hd, fun h => by simp [AExpr.level] at h, hd⟩
+  | sub l r ihl ihr =>
+    obtain ⟨al, bl, dl⟩ := ihl
+    obtain ⟨ar, br, dr⟩ := ihr
+    have hprint : printTop extra (.sub l r) = W extra 0 l ++ Tok.op '-' :: W extra 1 r := rfl
+    have hd : PD extra (.sub l r) := by
+      intro rest res g hn hg
+      have hg1 := sloop_fuel_pos hg
+      rw [hprint]
+      have h1 := B1 extra r ar br rest (r, rest) 1 (ploop_stop r rest hn)
+      have hstep := sloop_step (acc := l) '-' (Or.inr rfl) h1 (by simpa using hg)
+      have hn' : NoMul (Tok.op '-' :: (W extra 1 r ++ rest)) := by simp [NoMul]
+      have h2 := D0 extra l al dl _ res _ hn' hstep
+      have := sum_le (g := g + 7 * size (.sub l r) + 1) (by simp [size]; omega) h2
+      simpa [List.append_assoc] using this
+    exact ⟨PA_of_PD extra _ (by simp [AExpr.level]) hd, fun h => by simp [AExpr.level] at h, hd⟩
+  | mul l r ihl ihr =>
+    obtain ⟨al, bl, dl⟩ := ihl
+    obtain ⟨ar, br, dr⟩ := ihr
+    have hprint : printTop extra (.mul l r) = W extra 1 l ++ Tok.op '*' :: W extra 2 r := rfl
+    have hb : PB extra (.mul l r) := by
+      intro _ rest res g hg
+      have hg1 := ploop_fuel_pos hg
+      rw [hprint]
+      have h1 := ar rest
+      have hstep := ploop_step (acc := l) '*' (Or.inl rfl) h1 (by simpa using hg)
+      have h2 := B1 extra l al bl _ res _ hstep
+      have := product_le (g := g + 7 * size (.mul l r)) (by simp [size]; omega) h2
+      simpa [List.append_assoc] using this
+    have hd := PD_of_PB extra _ (by simp [AExpr.level]) hb
+    exact ⟨PA_of_PD extra _ (by simp [AExpr.level]) hd, hb, hd⟩
+  | div l r ihl ihr =>
+    obtain ⟨al, bl, dl⟩ := ihl
+    obtain ⟨ar, br, dr⟩ := ihr
+    have hprint : printTop extra (.div l r) = W extra 1 l ++ Tok.op '/' :: W extra 2 r := rfl
+    have hb : PB extra (.div l r) := by
+      intro _ rest res g hg
+      have hg1 := ploop_fuel_pos hg
+      rw [hprint]
+      have h1 := ar rest
+      have hstep := ploop_step (acc := l) '/' (Or.inr rfl) h1 (by simpa using hg)
+      have h2 := B1 extra l al bl _ res _ hstep
+      have := product_le (g := g + 7 * size (.div l r)) (by simp [size]; omega) h2
+      simpa [List.append_assoc] using this
+    have hd := PD_of_PB extra _ (by simp [AExpr.level]) hb
+    exact ⟨PA_of_PD extra _ (by simp [AExpr.level]) hd, hb, hd⟩
+
+theorem size_le_length (e : AExpr) : size e ≤ (printTop extra e).length := by
+  induction e with
+  | opnd s => simp [size, printTop]
+  | add l r ihl ihr | sub l r ihl ihr | mul l r ihl ihr | div l r ihl ihr =>
+    simp only [size, printTop, List.length_append, List.length_cons]
+    have hw : ∀ need x, (printTop extra x).length ≤ (wrap extra need x.level (printTop extra x)).length := by
+      intro need x; unfold wrap; split <;> simp <;> omega
+    have h1 := hw 0 l; have h2 := hw 1 r; have h3 := hw 1 l; have h4 := hw 2 r
+    omega
+
+/-- with fuel `8 * length + 8` the round trip succeeds -/
+theorem roundtrip (e : AExpr) : parseSum (8 * (printA extra e).length + 8) (printA extra e) = some (e, []) := by
+  have hf := (roundtrip_main extra e).2.2 [] (e, []) 1 trivial (by simp [sumLoop])
+  have hs := size_le_length extra e
+  have := sum_le (g := 8 * (printA extra e).length + 8) (by simp only [printA]; omega) hf
+  simpa [printA] using this
+end Main
+
 end Kolibrie.Arith
